@@ -244,7 +244,7 @@ def mid_enums(prop, mode):
 def case_enum(prop, mode):
     """variant names that differ only in the case of their letters are different variants"""
     traits = [t for t in MODES[mode]]
-    vs = "    MB(u8),\n    Mb(u8),\n    KB,\n    Kb,\n    Si { x: u8 },\n    SI { x: u8 },\n    r#si,\n"
+    vs = "    MB(u8),\n    Mb(u8),\n    KB,\n    Kb,\n    Si { x: u8 },\n    SI { x: u8 },\n    si,\n"
     pre = "#[allow(non_camel_case_types)]\n"
     text_e = "#[derive(::educe::Educe)]\n" + pre + "#[educe(%s)]\npub enum Ty {\n%s}\n" % (", ".join(traits), vs)
     text_d = "#[derive(%s)]\n" % ", ".join(traits) + pre + "pub enum Ty {\n%s}\n" % vs
